@@ -20,6 +20,9 @@ pub(super) enum State<'a, 'p> {
     DiscardValue,
     DoThunk(GcView<ThunkData<'p>>),
     GotThunk(GcView<ThunkData<'p>>, PendingThunk<'p>),
+    // Marks that the asserts of an object are being checked (they are pushed
+    // above this item). Does nothing when popped.
+    ObjectAssertsInProgress(GcView<ObjectData<'p>>),
     DeepValue,
     SwapLastValues,
     CoerceToString,
